@@ -591,6 +591,7 @@ func (ee *explainer) explainSeqContext1(l *gtab.SeqContext1) {
 }
 
 func (ee *explainer) explainSeqContext2(l *gtab.SeqContext2) {
+	ee.w.WriteRune(' ') // separate "class" from the lookup flags
 	ee.defineClasses("class", l.Input)
 	ee.w.WriteRune('/')
 	ee.explainCoverage(l.Cov)
@@ -650,6 +651,7 @@ func (ee *explainer) explainChainedSeqContext1(l *gtab.ChainedSeqContext1) {
 }
 
 func (ee *explainer) explainChainedSeqContext2(l *gtab.ChainedSeqContext2) {
+	ee.w.WriteRune(' ') // separate "backtrackclass" from the lookup flags
 	ee.defineClasses("backtrackclass", l.Backtrack)
 	ee.defineClasses("inputclass", l.Input)
 	ee.defineClasses("lookaheadclass", l.Lookahead)
